@@ -1578,10 +1578,23 @@ class Data(Container, NetCDFHDF5, Files, core.Data):
 
         if fill_values:
             array = self.array
-            mask = array == fill_values[0]
+            for fill_value in fill_values:
+                m = array == fill_value
+                try:
+                    if np.isnan(fill_value):
+                        # A NaN fill value is never equal to anything,
+                        # so look for NaNs, as is done when the
+                        # masking is applied on read.
+                        m = m | np.isnan(array)
+                except (TypeError, ValueError):
+                    # isnan fails on some data types, and a vector
+                    # of fill values has no truth value
+                    pass
 
-            for fill_value in fill_values[1:]:
-                mask |= array == fill_value
+                if mask is None:
+                    mask = m
+                else:
+                    mask |= m
 
         if valid_min is not None:
             if mask is None:
